@@ -66,7 +66,20 @@ pub fn make_tree() -> Tree {
     std::fs::create_dir(base.join("sub").join("sub")).unwrap();
     w(&base.join("sub").join("sub").join("a"), "deep a");
     w(&base.join("sub").join("sub").join("a.gz"), "deep gz");
+    // names at the NAME_MAX boundary: a 252-byte name whose .gz sibling (255 bytes) is still a legal name,
+    // a 253-byte name whose sibling would be too long, each also without a sibling
+    for (n, gz) in [(252usize, true), (251, true), (250, false), (253, false)] {
+        let name = long_name(n);
+        w(&base.join(&name), "long plain");
+        if gz {
+            w(&base.join(format!("{}.gz", name)), "long gz");
+        }
+    }
     Tree { _tmp: tmp, base }
+}
+
+pub fn long_name(n: usize) -> String {
+    (0..n).map(|i| (b'a' + ((i * 7 + n) % 26) as u8) as char).collect()
 }
 
 pub struct DirCase {
@@ -170,7 +183,10 @@ pub fn gen_c19(rng: &mut Rng, thorough: bool, emit: &mut dyn FnMut(DirCase)) {
         }
     }
     // other names: .gz given explicitly, dots, long names
-    for p in ["a.gz", "sub/a.gz", "sub/b", "sub/b.gz", "sub.gz", "sub", "sub/", "sub/sub/a", "sub/./a", "sub//a", "./a", "a/.", "a/", "..gz", "...gz", ".gz", "", "a.gz.gz", "nonexistent", "sub/nonexistent", "a/b"] {
+    let longs: Vec<String> = [252usize, 251, 250, 253, 255, 256].iter().map(|n| long_name(*n)).collect();
+    let mut named: Vec<String> = ["a.gz", "sub/a.gz", "sub/b", "sub/b.gz", "sub.gz", "sub", "sub/", "sub/sub/a", "sub/./a", "sub//a", "./a", "a/.", "a/", "..gz", "...gz", ".gz", "", "a.gz.gz", "nonexistent", "sub/nonexistent", "a/b"].iter().map(|s| s.to_string()).collect();
+    named.extend(longs);
+    for p in named.iter().map(|s| s.as_str()) {
         for auto in [true, false] {
             for ae in &aes {
                 emit(DirCase { path: p.as_bytes().to_vec(), auto_gzip: auto, ae: ae.map(|s| s.as_bytes().to_vec()), class: format!("G:named {:?} auto_gzip={} ae={:?}", p, auto, ae) });
